@@ -11,6 +11,7 @@
 import LccModel.Proto
 import LccModel.ProtoReport
 import LccModel.Model.Views
+import LccModel.Model.LiveViews
 import LccModel.Model.FilteredViews
 import LccModel.Lemmas.Writer
 open Lean LccModel LccModel.Proto LccModel.ProtoReport LccModel.Report LccModel.Writer LccModel.Views
@@ -36,6 +37,23 @@ def encSummary (sm : Summary) : Json :=
   Json.mkObj [("tests", Json.num sm.tests), ("successes", Json.num sm.successes), ("failures", Json.num sm.failures),
               ("skipped", encOptNat sm.skipped), ("disabled", encOptNat sm.disabled)]
 
+def viewsJson (r : Report) : Json :=
+    let ju := match junit r with
+      | .ok jr => Json.mkObj [("tests", Json.num jr.tests), ("failures", Json.num jr.failures), ("suites", encList encJSuite jr.suites)]
+      | .error _ => Json.mkObj [("err", "TypeError")]
+    let s := statsOf r
+    let sm := consoleSummary r
+    Json.mkObj [
+      ("junit", ju),
+      ("stats", Json.mkObj [("total", Json.num s.total), ("passed", Json.num s.passed), ("failed", Json.num s.failed),
+                            ("skipped", Json.num s.skipped), ("disabled", Json.num s.disabled), ("enabled", Json.num s.enabled)]),
+      ("vars", match messageVars r with
+        | .ok vs => Json.mkObj (vs.map (fun (k, v) => (k, Json.num v)))
+        | .error _ => Json.mkObj [("err", "TypeError")]),
+      ("summary", Json.mkObj [("tests", Json.num sm.tests), ("successes", Json.num sm.successes), ("failures", Json.num sm.failures),
+                              ("skipped", encOptNat sm.skipped), ("disabled", encOptNat sm.disabled)]),
+      ("inv", Json.bool (reportInv r))]
+
 def decFilter (j : Json) : Except String (Option RFilter) := do
   if j.isNull then return none
   let tests ← decList decPath (← field j "tests")
@@ -49,21 +67,15 @@ def handle (j : Json) : Except String Json := do
   match op with
   | "views" =>
     let r ← decReport (← field j "report")
-    let ju := match junit r with
-      | .ok jr => Json.mkObj [("tests", Json.num jr.tests), ("failures", Json.num jr.failures), ("suites", encList encJSuite jr.suites)]
-      | .error _ => Json.mkObj [("err", "TypeError")]
-    let s := statsOf r
-    let sm := consoleSummary r
-    pure (Json.mkObj [
-      ("junit", ju),
-      ("stats", Json.mkObj [("total", Json.num s.total), ("passed", Json.num s.passed), ("failed", Json.num s.failed),
-                            ("skipped", Json.num s.skipped), ("disabled", Json.num s.disabled), ("enabled", Json.num s.enabled)]),
-      ("vars", match messageVars r with
-        | .ok vs => Json.mkObj (vs.map (fun (k, v) => (k, Json.num v)))
-        | .error _ => Json.mkObj [("err", "TypeError")]),
-      ("summary", Json.mkObj [("tests", Json.num sm.tests), ("successes", Json.num sm.successes), ("failures", Json.num sm.failures),
-                              ("skipped", encOptNat sm.skipped), ("disabled", encOptNat sm.disabled)]),
-      ("inv", Json.bool (reportInv r))])
+    pure (viewsJson r)
+  | "live" =>
+    -- {"op":"live","events":[…],"nb_threads":n,"cuts":[k…]} → {"views":[views of the report after k events, for each cut reached]}
+    let es ← decList decEvent (← field j "events")
+    let nb ← getNat j "nb_threads"
+    let cuts ← (← getArr j "cuts").toList.mapM (fun x => x.getNat?)
+    let r0 : Report := { Report.empty with nbThreads := nb }
+    let evals := liveRun (initState r0) (actsOfCuts es cuts)
+    pure (Json.mkObj [("views", Json.arr (evals.map (fun p => viewsJson p.1)).toArray)])
   | "short" =>
     let r ← decReport (← field j "report")
     let filt ← decFilter (fieldOpt j "filter")
